@@ -21,6 +21,8 @@ def run(ctx):
     ctx.guard(fresh, ctx)
     ctx.guard(stmt_ro, ctx)
     ctx.guard(reiterable, ctx)
+    from . import c10 as _c10
+    ctx.shared(_c10.typecase, ctx, ['xtuml.meta'], 'C10-TYPECASE')
     ctx.assume('user code that mutates Association.source_keys / target_keys in place is outside the listed changes')
     return ('Escape classification of every statement-field argument in the populate_* passes (copied vs stored by reference, '
             'one call level deep), repository-wide scan for in-place mutators of reference-stored fields, freshness of every '
@@ -248,7 +250,10 @@ def escape(ctx):
                     key='fresh ' + f, msg='%s.__init__ does not create a fresh empty container for self.%s' % (clsname, f))
     da = repo.nfunc('xtuml.meta:MetaModel.define_association')     # normal form: one spelling of the dict building
     from .common import resolve_locals
-    kms = sorted(src(resolve_locals(da, env_['_V'])) for _n, env_ in pm.find('_L.key_map = _V', da))
+    def _pairs(v):
+        m_ = pm.match('dict(zip(_A, _B))', v) or pm.match('dict(zip(_A, _B, strict=_S))', v)
+        return 'dict(zip(%s, %s))' % (src(m_['_A']), src(m_['_B'])) if m_ else src(v)
+    kms = sorted(_pairs(resolve_locals(da, env_['_V'])) for _n, env_ in pm.find('_L.key_map = _V', da))
     r.check(kms == ['dict(zip(source_keys, target_keys))', 'dict(zip(target_keys, source_keys))'],
             'key maps are new dictionaries built from the key lists', da, construct='xtuml.meta:MetaModel.define_association', key='key_map-copy',
             msg='define_association does not build fresh key_map dictionaries')
